@@ -129,6 +129,8 @@ Devs ==
   \cup { <<"hi.logCosets", v>> : v \in {Hi + 2} }              \* huge blow-up exponent, consistently re-declared
   \cup { <<"hi.ncols", v>> : v \in {Hi + 7} }
   \cup { <<"hi.nvf", v>> : v \in {Hi + 5} }
+  \cup { <<"fri.zeroStep", 0>> }                                 \* a zero step after the first, with a one-column layer of unchanged height: consistent, but step 0 is out of range
+  \cup { <<"fri.step1Neg", k>> : k \in {1, 2} }                  \* first step -k (mod the field), k more bits in the last layer: every sum still closes
   \cup { <<"inv.nQueries", m>> : m \in {1, 21, 41} }            \* n_queries = m / log_n_cosets in the field: the product with log_n_cosets is the small number m
   \cup { <<"traceShift", v>> : v \in {1, 2} }            \* trace exponent and every height +v, FRI description unchanged apart from heights
 
@@ -167,6 +169,9 @@ Apply(c, d) ==
     [] d[1] = "traceShift" -> LET e == FAdd(FAdd(c.logTrace, d[2]), c.logCosets) IN
                               [c EXCEPT !.logTrace = FAdd(@, d[2]), !.orig.vec.height = e, !.inter.vec.height = e, !.comp.vec.height = e,
                                         !.fri.logInput = e, !.fri.inner[1].vec.height = FSub(e, 4), !.fri.inner[2].vec.height = FSub(e, 7)]
+    [] d[1] = "fri.zeroStep" -> [c EXCEPT !.fri.nLayers = 4, !.fri.steps = <<0, 0, 4, 3>>,
+                                           !.fri.inner = <<[ncols |-> 1, vec |-> Vec(11, 5)]>> \o @]
+    [] d[1] = "fri.step1Neg" -> [c EXCEPT !.fri.steps[1] = P - d[2], !.fri.logLast = @ + d[2]]
     [] d[1] = "inv.nQueries" -> [c EXCEPT !.nQueries = FMul(d[2] % P, CHOOSE x \in 1..(P - 1) : FMul(x, c.logCosets) = 1)]
     [] d[1] = "hi.nQueries" -> [c EXCEPT !.nQueries = d[2]]
     [] d[1] = "hi.nLayers" -> [c EXCEPT !.fri.nLayers = d[2]]
